@@ -1,5 +1,7 @@
 import IastModel
 import IastModel.MapChecks
+import IastModel.Lemmas.NsCount
+import IastModel.Lemmas.Targets
 /-
   Line-protocol driver.  One JSON record per stdin line (written by the Rust harness, which ran the
   real rewriter on the same request), one JSON verdict per stdout line:
@@ -100,6 +102,8 @@ def processRewrite (rec : J) : Verdict := Id.run do
   | .ok p =>
     let r := transformProgram cfg (defaultFuel p) p
     v := v.addStat "in_size" (jnat p.size)
+    -- the hypotheses of the instrumentation theorems (`master`), evaluated on this input
+    v := v.addStat "hyp" (jstr (if ns p != 0 then "mentions-namespace" else if !targetsOk p then "foreign-assignment-target" else "met"))
     if r.fuelOut then v := v.addCorr "fuel" (jstr "model ran out of fuel")
     -- outcome / status
     let realStatus :=
